@@ -471,4 +471,292 @@ theorem readHeaderSeg_spec (env : Env) (v1 : Rdr → Rd × Rdr) (r0 : Rdr) (e : 
             have hs' : ¬ r0.rest.take 12 = sigV2 := by rw [← hp12]; exact cs
             refine ⟨by rw [hrd, if_neg hs'], (fun _ => by rw [a12, a5, a1]), (fun n hn => by simp [Rd.consumed] at hn)⟩
 
+theorem readLine_append_some (b y line : Bytes) (h : readLine b = some line) : readLine (b ++ y) = some line := by
+  induction b generalizing line with
+  | nil => simp [readLine] at h
+  | cons x t ih =>
+    simp only [List.cons_append, readLine] at h ⊢
+    by_cases hx : x = 0x0A
+    · simp only [hx, if_true] at h ⊢; exact h
+    · simp only [hx, if_false] at h ⊢
+      cases ht : readLine t with
+      | none => simp [ht] at h
+      | some l => simp [ht] at h; subst h; simp [ih l ht]
+
+theorem readLine_append_none (b y : Bytes) (h : readLine b = none) :
+    readLine (b ++ y) = (readLine y).map (b ++ ·) := by
+  induction b with
+  | nil => simp
+  | cons x t ih =>
+    simp only [List.cons_append, readLine] at h ⊢
+    by_cases hx : x = 0x0A
+    · simp [hx] at h
+    · simp only [hx, if_false] at h ⊢
+      have ht : readLine t = none := by
+        cases h' : readLine t with
+        | none => rfl
+        | some l => simp [h'] at h
+      rw [ih ht]
+      cases readLine y <;> simp
+
+theorem readLine_prefix (b line : Bytes) (h : readLine b = some line) : b = line ++ b.drop line.length := by
+  induction b generalizing line with
+  | nil => simp [readLine] at h
+  | cons x t ih =>
+    simp only [readLine] at h
+    by_cases hx : x = 0x0A
+    · simp [hx] at h; subst h; simp [hx]
+    · simp only [hx, if_false] at h
+      cases ht : readLine t with
+      | none => simp [ht] at h
+      | some l =>
+        simp [ht] at h; subst h
+        simp only [List.length_cons, List.drop_succ_cons, List.cons_append]
+        rw [← ih l ht]
+
+def phi (r : Rdr) : Nat := 2 * r.measure + (if r.buf.length ≥ bufSize then 1 else 0)
+
+theorem fill1_none_rest (r : Rdr) (h : fill1 r = none) : r.rest = r.buf := by
+  unfold fill1 at h
+  split at h
+  · rename_i h0; simp [Rdr.rest, h0]
+  · split at h
+    · rename_i hs; simp [Rdr.rest, hs]
+    · simp at h
+
+/-- `ReadString` over any segmentation returns the first line of the visible byte string (or fails when there is
+    none) and leaves exactly the bytes behind it -/
+theorem readLineSeg_spec (S L : Nat) :
+    ∀ (fuel : Nat) (acc : Bytes) (r : Rdr), phi r < fuel → r.K S L →
+      (∀ line, readLine r.rest = some line →
+        ∃ r', readLineSeg fuel acc r = some (acc ++ line, r') ∧ r'.rest = r.rest.drop line.length ∧
+              r'.all = r.all.drop line.length ∧ r'.K S L) ∧
+      (readLine r.rest = none → readLineSeg fuel acc r = none) := by
+  intro fuel
+  induction fuel with
+  | zero => intro acc r h; omega
+  | succ f ih =>
+    intro acc r hf hK
+    simp only [readLineSeg]
+    cases hb : readLine r.buf with
+    | some l =>
+      have hr : readLine r.rest = some l := readLine_append_some _ _ _ hb
+      have hp := readLine_prefix _ _ hb
+      have hlen : l.length ≤ r.buf.length := by
+        have := congrArg List.length hp; simp at this; omega
+      constructor
+      · intro line hl
+        rw [hr] at hl; cases hl
+        refine ⟨_, rfl, ?_, ?_, hK⟩
+        · simp only [Rdr.rest]; rw [List.drop_append_of_le_length hlen]
+        · simp only [Rdr.all]; rw [List.drop_append_of_le_length hlen]
+      · intro hn; rw [hr] at hn; cases hn
+    | none =>
+      simp only []
+      by_cases hfull : r.buf.length ≥ bufSize
+      · rw [if_pos hfull]
+        have hphi : phi { r with buf := [] } < f := by
+          unfold phi at hf ⊢
+          simp only [Rdr.measure] at hf ⊢
+          simp [hfull] at hf
+          simp [bufSize]; omega
+        obtain ⟨i1, i2⟩ := ih (acc ++ r.buf) { r with buf := [] } hphi hK
+        have hrl : readLine r.rest = (readLine ({ r with buf := [] } : Rdr).rest).map (r.buf ++ ·) := by
+          have : r.rest = r.buf ++ ({ r with buf := [] } : Rdr).rest := by simp [Rdr.rest]
+          rw [this]; exact readLine_append_none _ _ hb
+        constructor
+        · intro line hl
+          rw [hrl] at hl
+          cases hq : readLine ({ r with buf := [] } : Rdr).rest with
+          | none => simp [hq] at hl
+          | some l' =>
+            simp [hq] at hl; subst hl
+            obtain ⟨r', h1, h2, h3, h4⟩ := i1 l' hq
+            refine ⟨r', by rw [h1, List.append_assoc], ?_, ?_, h4⟩
+            · rw [h2]; simp [Rdr.rest]
+            · rw [h3]; simp [Rdr.all]
+        · intro hn
+          rw [hrl] at hn
+          cases hq : readLine ({ r with buf := [] } : Rdr).rest with
+          | none => exact i2 hq
+          | some l' => simp [hq] at hn
+      · rw [if_neg hfull]
+        cases hfl : fill1 r with
+        | none =>
+          simp only []
+          have := fill1_none_rest r hfl
+          constructor
+          · intro line hl; rw [this, hb] at hl; cases hl
+          · intro _; trivial
+        | some r1 =>
+          simp only []
+          obtain ⟨hm, hK1⟩ := fill1_measure_K r r1 S L hfl (by omega) hK
+          obtain ⟨e1, a1⟩ := fill1_rest_all r r1 hfl
+          have hphi : phi r1 < f := by
+            unfold phi at hf ⊢
+            have : (if r1.buf.length ≥ bufSize then 1 else 0) ≤ 1 := by split <;> omega
+            omega
+          obtain ⟨i1, i2⟩ := ih acc r1 hphi hK1
+          rw [← e1, ← a1]
+          exact ⟨i1, i2⟩
+
+theorem parseToks_shape (env : Env) (toks : List Bytes) (n : Nat) :
+    parseToks env toks n = .err ∨ parseToks env toks n = .sock n ∨
+    ∃ f s d sp dp, parseToks env toks n = .hdr f s d sp dp n := by
+  unfold parseToks
+  repeat' (first | split | dsimp only)
+  all_goals first | exact Or.inl rfl | exact Or.inr (Or.inl rfl) | exact Or.inr (Or.inr ⟨_, _, _, _, _, rfl⟩)
+
+theorem parseToks_consumed (env : Env) (toks : List Bytes) (n m : Nat)
+    (h : (parseToks env toks n).consumed = some m) : m = n := by
+  rcases parseToks_shape env toks n with h1 | h1 | ⟨_, _, _, _, _, h1⟩ <;> rw [h1] at h <;> simp [Rd.consumed] at h <;> omega
+
+theorem parseV1Seg_spec (env : Env) (r : Rdr) (S L : Nat) (hK : r.K S L) :
+    (parseV1Seg env r).1 = parseV1 env r.rest ∧
+    (∀ n, (parseV1Seg env r).1.consumed = some n → (parseV1Seg env r).2.all = r.all.drop n) := by
+  obtain ⟨i1, i2⟩ := readLineSeg_spec S L (2 * r.measure + 3) [] r (by unfold phi; split <;> omega) hK
+  unfold parseV1Seg parseV1 Rdr.readLine
+  cases hl : readLine r.rest with
+  | none =>
+    rw [i2 hl]
+    exact ⟨rfl, fun n hn => by simp [Rd.consumed] at hn⟩
+  | some line =>
+    obtain ⟨r', h1, _, h3, _⟩ := i1 line hl
+    rw [h1]
+    simp only [List.nil_append]
+    by_cases c : line.length < 2 ∨ line.getD (line.length - 2) 0 ≠ 0x0D
+    · rw [if_pos c, if_pos c]
+      exact ⟨rfl, fun n hn => by simp [Rd.consumed] at hn⟩
+    · rw [if_neg c, if_neg c]
+      refine ⟨rfl, fun n hn => ?_⟩
+      have : n = line.length := parseToks_consumed env _ _ _ hn
+      subst this
+      exact h3
+
+theorem rh_v1 (env : Env) (b : UInt8) (t : Bytes) (a : Bool) (hv : (b :: t).take 5 = sigV1) :
+    readHeader env (b :: t) a = parseV1 env (b :: t) := by
+  have hb : b = 0x50 := by simp [sigV1] at hv; exact hv.1
+  have hl : ¬ (b :: t).length < 5 := by
+    have := congrArg List.length hv; simp [sigV1] at this; simp; omega
+  have cb : ¬ (b ≠ 0x50 ∧ b ≠ 0x0D) := by simp [hb]
+  unfold readHeader; simp only []; rw [if_neg cb, if_neg hl, if_pos hv]
+
+/-- the v1 branch of `Read` over the segmented reader -/
+theorem readHeaderSeg_spec_v1 (env : Env) (r0 : Rdr) (e : EndK) (S L : Nat) (hK : r0.K S L) (a : Bool)
+    (hv1 : r0.rest.take 5 = sigV1) :
+    (readHeaderSeg (parseV1Seg env) r0 e).1 = readHeader env r0.rest a ∧
+    (∀ n, (readHeaderSeg (parseV1Seg env) r0 e).1.consumed = some n →
+        (readHeaderSeg (parseV1Seg env) r0 e).2.all = r0.all.drop n) ∧
+    (readHeaderSeg (parseV1Seg env) r0 e).1 ≠ .noProxy := by
+  obtain ⟨e1, a1, K1, d1⟩ := rdr_need_spec r0 1 (by decide) S L hK
+  obtain ⟨e5, a5, K5, d5⟩ := rdr_need_spec (r0.need 1) 5 (by decide) S L K1
+  have hlen : 5 ≤ r0.rest.length := by
+    have := congrArg List.length hv1; simp [sigV1] at this; omega
+  have hb5 : 5 ≤ ((r0.need 1).need 5).buf.length := by
+    rcases d5 with d | d
+    · exact d
+    · rw [d, e5, e1]; exact hlen
+  have hp5 : ((r0.need 1).need 5).buf.take 5 = sigV1 := by
+    rw [buf_prefix _ 5 hb5, e5, e1]; exact hv1
+  obtain ⟨s1, s2⟩ := parseV1Seg_spec env ((r0.need 1).need 5) S L K5
+  rw [e5, e1] at s1
+  rw [a5, a1] at s2
+  unfold readHeaderSeg
+  simp only []
+  cases hb : (r0.need 1).buf with
+  | nil =>
+    exfalso
+    rcases d1 with d | d
+    · simp [hb] at d
+    · rw [hb] at d; rw [← e1, ← d] at hlen; simp at hlen
+  | cons b t =>
+    simp only []
+    have hrest : r0.rest = b :: (t ++ ((r0.need 1).segs.flatten).take (r0.need 1).N) := by
+      rw [← e1]; simp [Rdr.rest, hb]
+    have hb50 : b = 0x50 := by rw [hrest] at hv1; simp [sigV1] at hv1; exact hv1.1
+    have cb : ¬ (b ≠ 0x50 ∧ b ≠ 0x0D) := by simp [hb50]
+    have c5 : ¬ ((r0.need 1).need 5).buf.length < 5 := by omega
+    rw [if_neg cb, if_neg c5, if_pos hp5]
+    have hrh : readHeader env r0.rest a = parseV1 env r0.rest := by
+      rw [hrest] at hv1 ⊢; exact rh_v1 env b _ a hv1
+    refine ⟨by rw [s1, hrh], s2, ?_⟩
+    rw [s1]
+    -- parseV1 never answers noProxy
+    unfold parseV1
+    split
+    · simp
+    · simp only []
+      split
+      · simp
+      · rcases parseToks_shape env (splitSp (List.take (List.length ‹Bytes› - 2) ‹Bytes›)) (List.length ‹Bytes›) with h | h | ⟨_, _, _, _, _, h⟩ <;> rw [h] <;> simp
+
+theorem readLine_take_none (s : Bytes) (k : Nat) (h : readLine s = none) : readLine (s.take k) = none := by
+  induction s generalizing k with
+  | nil => simp [readLine]
+  | cons x t ih =>
+    cases k with
+    | zero => simp [readLine]
+    | succ k =>
+      simp only [readLine, List.take_succ_cons] at h ⊢
+      by_cases hx : x = 0x0A
+      · simp [hx] at h
+      · simp only [hx, if_false] at h ⊢
+        have : readLine t = none := by
+          cases h' : readLine t with
+          | none => rfl
+          | some l => simp [h'] at h
+        simp [ih k this]
+
+theorem readLine_of_take (s : Bytes) (k : Nat) (l : Bytes) (h : readLine (s.take k) = some l) : readLine s = some l := by
+  induction s generalizing k l with
+  | nil => simp [readLine] at h
+  | cons x t ih =>
+    cases k with
+    | zero => simp [readLine] at h
+    | succ k =>
+      simp only [readLine, List.take_succ_cons] at h ⊢
+      by_cases hx : x = 0x0A
+      · simp only [hx, if_true] at h ⊢; exact h
+      · simp only [hx, if_false] at h ⊢
+        cases ht : readLine (t.take k) with
+        | none => simp [ht] at h
+        | some l' => simp [ht] at h; subst h; simp [ih k l' ht]
+
+theorem readLine_take_some (s : Bytes) (k : Nat) (l : Bytes) (h : readLine s = some l) (hk : l.length ≤ k) :
+    readLine (s.take k) = some l := by
+  induction s generalizing k l with
+  | nil => simp [readLine] at h
+  | cons x t ih =>
+    simp only [readLine] at h
+    by_cases hx : x = 0x0A
+    · simp [hx] at h; subst h
+      cases k with
+      | zero => simp at hk
+      | succ k => simp [readLine, hx]
+    · simp only [hx, if_false] at h
+      cases ht : readLine t with
+      | none => simp [ht] at h
+      | some l' =>
+        simp [ht] at h; subst h
+        cases k with
+        | zero => simp at hk
+        | succ k =>
+          simp only [List.take_succ_cons, readLine, hx, if_false]
+          simp [ih k l' ht (by simpa using hk)]
+
+def closedRd : Rd → Bool
+  | .err => true
+  | .noProxy => false
+  | .sock _ => false
+  | .hdr f s d sp dp _ => (resolve f s sp).isNone || (resolve f d dp).isNone
+
+theorem connOf_closed (rd : Rd) (st : Bytes) (e : EndK) : (connOf rd st e).closed = closedRd rd := by
+  cases rd with
+  | err => rfl
+  | noProxy => rfl
+  | sock n => rfl
+  | hdr f s d sp dp n =>
+    simp only [connOf, closedRd]
+    cases resolve f s sp <;> cases resolve f d dp <;> simp [rejectObs]
+
 end BfeVerif.C46
